@@ -73,6 +73,7 @@ type cronWorld struct {
 	scribbled int
 	lastSched []def.Task // what the last csLine got from Schedule()
 	handed    []def.Task // tasks returned by Pop / Peek since the last scribble
+	rowParams []def.TaskUpdateParam // parameters the client passed into RowRaw.Parse
 	clk       *vclock.Clock
 	ents      []cronEnt
 	store     *cron.CronStore
@@ -170,6 +171,7 @@ func cronExec(h sim.History) []string {
 					return
 				}
 				w.ents = append(w.ents, cronEnt{name: name, entry: cron.NewEntry(start, row)})
+				w.rowParams = append(w.rowParams, p) // the very maps handed to RowRaw stay with the client
 				// oracle: the schedule's occurrences, computed independently from the parsed schedule
 				var occ []string
 				t := start
@@ -262,6 +264,10 @@ func cronExec(h sim.History) []string {
 				for _, e := range w.ents {
 					w.scribbled += scribbleParam(e.entry.Param())
 				}
+				for _, p := range w.rowParams {
+					w.scribbled += scribbleParam(p)
+				}
+				w.rowParams = nil
 				if after := proto.Tasks(w.store.Schedule()); after != before {
 					out = append(out, "mismatch C19 scribbling over tasks returned by the cron store changed its pending schedule: "+proto.Str(after))
 				}
